@@ -51,6 +51,7 @@ type c02conn struct {
 	tabort   bool // the target dies mid-stream (RST) instead
 	up, down [][]byte
 	coalesce bool
+	addrCut  int // >0: the address header is cut into Shadowsocks chunks at this offset; -1: one byte per chunk
 	// an idle period longer than the handshake timeout before the i-th message
 	// of a direction (-1: none): a relay outlives every handshake deadline
 	pauseUp, pauseDown int
@@ -113,8 +114,17 @@ func runC02(rc *RunCtx) {
 				c.pauseUp = G.Draw(len(c.up) + 1)
 			}
 		}
+		// the plaintext is a stream: the address header need not arrive in one chunk
+		if G.Draw(4) == 0 {
+			if G.Draw(4) == 0 {
+				c.addrCut = -1
+			} else {
+				c.addrCut = 1 + G.Draw(len(socksAddr(c.addrStr))-1)
+			}
+			simrt.Probe("address_header_split_over_chunks")
+		}
 		conns[k] = c
-		rc.D("conn %d pauseUp=%d pauseDown=%d", k, c.pauseUp, c.pauseDown)
+		rc.D("conn %d pauseUp=%d pauseDown=%d addrCut=%d", k, c.pauseUp, c.pauseDown, c.addrCut)
 		rc.D("conn %d key=%s order=%s up=%v down=%v coalesce=%v addr=%s abort=%v", k, c.key.ID, "ABCD"[c.order:c.order+1], lens(c.up), lens(c.down), c.coalesce, c.addrStr, c.abort)
 	}
 	if smallWin {
@@ -223,12 +233,23 @@ func runC02(rc *RunCtx) {
 			enc := newEncoder(c.key)
 			var wire [][]byte
 			rest := c.up
+			hdr := socksAddr(c.addrStr)
+			switch {
+			case c.addrCut > 0:
+				wire = append(wire, enc.Chunk(hdr[:c.addrCut]))
+				hdr = hdr[c.addrCut:]
+			case c.addrCut < 0:
+				for len(hdr) > 1 {
+					wire = append(wire, enc.Chunk(hdr[:1]))
+					hdr = hdr[1:]
+				}
+			}
 			if c.coalesce && len(rest) > 0 {
-				enc.Lazy(socksAddr(c.addrStr))
+				enc.Lazy(hdr)
 				wire = append(wire, enc.Chunk(rest[0]))
 				rest = rest[1:]
 			} else {
-				wire = append(wire, enc.Chunk(socksAddr(c.addrStr)))
+				wire = append(wire, enc.Chunk(hdr))
 			}
 			var rdone flag
 			simrt.GoNamed(fmt.Sprintf("client-reader-%d", c.k), func() {
@@ -248,7 +269,12 @@ func runC02(rc *RunCtx) {
 				}
 				return writeSegmented(G, cc, b, 4) == nil
 			}
-			ok := send(wire[0])
+			ok := true
+			for _, wb := range wire {
+				if ok = send(wb); !ok {
+					break
+				}
+			}
 			if ok && c.order == 1 {
 				rdone.Wait() // target spoke and half-closed; now the client talks
 			}
